@@ -396,6 +396,17 @@ impl Check for C19 {
                     }
                 }
             }
+            // repetition: the same rejected call many times over at one place of one history (whatever a rejected call leaves
+            // behind in the writer's own state adds up)
+            if !all.is_empty() && ir.chance(1, 6) {
+                let x = &all[ir.below(all.len() as u64) as usize];
+                let times = *ir.pick(&[3usize, 40, 70, 130, 300]);
+                let many: Vec<(usize, WOp, String)> = (0..times).map(|_| (x.0, x.1.clone(), x.2.to_string())).collect();
+                if check_insertions(c, &base, &many, st).map_err(|f| Fail::new(&f.clause, format!("[{} x{}] {}", x.3, times, f.detail)))? {
+                    judged += 1;
+                    st.inc("fault_repeated_rejections");
+                }
+            }
         }
         st.add("failing_calls_judged", judged);
         Ok(ExecOk { nontrivial: judged > 0 && c.ops.len() >= 2 })
@@ -490,7 +501,7 @@ impl Check for C19 {
     }
 
     fn rule(&self) -> &'static str {
-        "One case = specification + valid writer call history H; at EVERY position of H one failing call of each applicable kind is inserted (tag not allowed here; payload too long for the requested size width, also via a raw tag; End of a master whose content does not fit the width requested at its Start; unknown size on a non-master, both APIs; raw tag with malformed id; End of a master that is not the innermost open one / nothing open; Full master with an invalid child at some depth and position; Full master whose own End is rejected because its content does not fit the requested width or because it contains a Start that is never closed), one at a time plus a few pairs. Differential on the real writer: each inserted call is rejected (with whatever non-I/O error), every original call returns what it returned in H, the destination holds the same bytes after each original call, and into_inner() gives the same result and bytes. Non-trivial: at least one failing call was judged in a history of at least 2 calls. 'evaluations' counts histories; judged insertions are in counters.failing_calls_judged."
+        "One case = specification + valid writer call history H; at EVERY position of H one failing call of each applicable kind is inserted (tag not allowed here; payload too long for the requested size width, also via a raw tag; End of a master whose content does not fit the width requested at its Start; unknown size on a non-master, both APIs; raw tag with malformed id; End of a master that is not the innermost open one / nothing open; Full master with an invalid child at some depth and position; Full master whose own End is rejected because its content does not fit the requested width or because it contains a Start that is never closed), one at a time plus a few pairs, and in one history of six one of them repeated 3 to 300 times at the same place. Differential on the real writer: each inserted call is rejected (with whatever non-I/O error), every original call returns what it returned in H, the destination holds the same bytes after each original call, and into_inner() gives the same result and bytes. Non-trivial: at least one failing call was judged in a history of at least 2 calls. 'evaluations' counts histories; judged insertions are in counters.failing_calls_judged."
     }
     fn assumptions(&self) -> Vec<&'static str> {
         vec![
